@@ -81,12 +81,14 @@ class LexInf(Inference):
         # self._translation_start()
         tseitin_transformation = TseitinTransformation(self.epistemic_state)
         translated_query = tseitin_transformation.query_to_cnf(query)
-        self.epistemic_state["v_cnf_dict"][0] = translated_query[0]
-        self.epistemic_state["f_cnf_dict"][0] = translated_query[1]
+        # the query has slots of its own: the per-conditional CNF dictionaries are keyed by
+        # the keys of the belief base, any of which may be 0
+        self.epistemic_state["query_v_cnf"] = translated_query[0]
+        self.epistemic_state["query_f_cnf"] = translated_query[1]
         wcnf_v = WCNF()
         wcnf_f = WCNF()
-        [wcnf_v.append(c) for c in self.epistemic_state["v_cnf_dict"][0]]
-        [wcnf_f.append(c) for c in self.epistemic_state["f_cnf_dict"][0]]
+        [wcnf_v.append(c) for c in self.epistemic_state["query_v_cnf"]]
+        [wcnf_f.append(c) for c in self.epistemic_state["query_f_cnf"]]
         if not weakly:
             result = self._rec_inference(
                 wcnf_v, wcnf_f, len(self.epistemic_state["partition"]) - 1, deadline
